@@ -192,10 +192,13 @@ func (ab *Abci) ctx() sdk.Context {
 // block runs ProcessProposal (which resets the finalize state), FinalizeBlock and, on success, Commit.
 func (ab *Abci) block(t time.Time, txs [][]byte, fault int, out **abci.ResponseFinalizeBlock) error {
 	fs := ab.Env.B.fault
+	// The application enables optimistic execution: ProcessProposal already starts executing the block in
+	// the background and FinalizeBlock then waits for that result, so the fault must be armed beforehand.
+	fs.Armed, fs.Countdown, fs.Count = fault > 0, fault, 0
 	if _, err := ab.App.ProcessProposal(&abci.RequestProcessProposal{Height: ab.Height + 1, Time: t, Txs: txs}); err != nil {
+		fs.Armed = false
 		return fmt.Errorf("process proposal: %w", err)
 	}
-	fs.Armed, fs.Countdown, fs.Count = fault > 0, fault, 0
 	resp, err := ab.App.FinalizeBlock(&abci.RequestFinalizeBlock{Height: ab.Height + 1, Time: t, Txs: txs})
 	if os.Getenv("FR_DEBUG") != "" {
 		fmt.Fprintf(os.Stderr, "block h=%d t=%v fault=%d count=%d countdown=%d err=%v\n", ab.Height+1, t, fault, fs.Count, fs.Countdown, err)
